@@ -10,6 +10,9 @@ from . import qprops
 from .codec import Some, plain
 from .core import Plugin, ROOT
 
+# cells of the columns that are NOT converted: they must come back exactly, whatever they contain (line-boundary characters,
+# an embedded line break or quotes inside a quoted cell)
+OTHER_CELLS = ["k", "", "other value", "é", "1,2", "a;b", "k", "", "a\u2028b", "x\x0cy", "l1\nl2", 'say "hi"', "t\x85u", "v\x0bw", "r\x1cs"]
 FN = ["compress", "expand", "standardize_prefix", "standardize_curie", "standardize_uri"]
 
 
@@ -51,7 +54,7 @@ class C16(Plugin):
             for _ in range(nrows):
                 row = []
                 for j in range(ncols):
-                    row.append(rng.choice(pool) if j == col else rng.choice(["k", "", "other value", "é", "1,2", "a;b"]))
+                    row.append(rng.choice(pool) if j == col else rng.choice(OTHER_CELLS))
                 rows.append(row)
             if mode == 1 and rows and rng.random() < 0.15:
                 rows[rng.randrange(len(rows))] = rows[0][:col]  # a short row at a random position
